@@ -339,11 +339,14 @@ fn a_resolve_serialized_contract_never() {
 fn a_resolve_serialized_contract_once() {
     resolve_serialized_contract_case(ResolveSerialized::Once(Box::new(|_| cont_result())));
     kani::cover!(true, "C02/ResolveSerialized::resolve/contract/once/reached");
+    kani::cover!(true, "C12/ResolveSerialized::resolve/contract/once/reached"); // the arity contract also serves C12 and C09
 }
 #[kani::proof_for_contract(ResolveSerialized::resolve)]
 fn a_resolve_serialized_contract_many() {
     resolve_serialized_contract_case(ResolveSerialized::Many(Box::new(|_| cont_result())));
     kani::cover!(true, "C02/ResolveSerialized::resolve/contract/many/reached");
+    kani::cover!(true, "C12/ResolveSerialized::resolve/contract/many/reached"); // a rejected item must not end the subscription
+    kani::cover!(true, "C09/ResolveSerialized::resolve/contract/many/reached");
 }
 
 // ---- macro-generated Effect::serialize (real crux_macros::effect expansion)
